@@ -195,6 +195,21 @@ def reuse_sequences():
             [cf('b', ('max_length', '25')), rn, add, cf('b', ('db_index', 'true'))]]
 
 
+def rename_after_rebuild_sequences():
+    """a mutation that rebuilds the table, then one whose SQL closes the pending group of operations (a column renamed
+    in place), then an in-place rename of ANOTHER column through db_column: the second rename costs no rebuild in
+    either run"""
+    cf = lambda field, *attrs: {'t': 'ChangeField', 'model': 'Alpha', 'field': field, 'ftype': None, 'initial': None,
+                                'attrs': [list(a) for a in attrs]}
+    rn = lambda old, new: {'t': 'RenameField', 'model': 'Alpha', 'old': old, 'new': new, 'db_column': None, 'db_table': None}
+    add = {'t': 'AddField', 'model': 'Alpha', 'field': 'c', 'ftype': 'IntegerField', 'initial': None, 'attrs': [['null', 'true']]}
+    return [[add, rn('b', 'bb'), cf('a', ('db_column', '"a_col"'))],
+            [add, rn('a', 'aa'), cf('b', ('db_column', '"b_col"'))],
+            [cf('b', ('max_length', '30')), rn('a', 'aa'), cf('b', ('db_column', '"b_col"'))],
+            [add, rn('b', 'bb'), cf('a', ('db_column', '"a_col"')), cf('bb', ('db_column', '"b_col"'))],
+            [{'t': 'DeleteField', 'model': 'Alpha', 'field': 'b'}, cf('a', ('db_column', '"a_col"'))]]
+
+
 def unique_spec():
     spec = optrig.start_spec()
     spec['apps'][0]['models'][0]['fields'].append(
@@ -284,7 +299,7 @@ def run(ctx):
     ctx.rng.shuffle(ir3)
     ir += ir3[:50 if quick else 2000]
     work = [(unique_spec(), q) for q in unique_rename_sequences()] + [(constraint_spec(), q) for q in constraint_sequences()] + [(spec, q) for q in restated_meta_sequences()] + \
-        [(spec, q) for q in meta_sequences() + reuse_sequences() + rebuild_then_meta_sequences()] + [(spec2, q) for q in rel] + [(spec, q) for q in ir] + \
+        [(spec, q) for q in meta_sequences() + reuse_sequences() + rebuild_then_meta_sequences() + rename_after_rebuild_sequences()] + [(spec2, q) for q in rel] + [(spec, q) for q in ir] + \
         [(spec, q) for q in seqs]
     merge_witness = None
     reqs = []
